@@ -1988,6 +1988,11 @@ func (l *LabeledVPNIPAddrPrefix) decodeFromBytes(data []byte, addrlen int, optio
 	if err := l.Labels.DecodeFromBytes(data, options...); err != nil {
 		return err
 	}
+	if len(l.Labels.Labels) == 0 {
+		// RFC 8277: the NLRI always carries at least one label; a value without
+		// one could be stored but never re-advertised (it does not serialise).
+		return NewMessageError(uint8(BGP_ERROR_UPDATE_MESSAGE_ERROR), uint8(BGP_ERROR_SUB_MALFORMED_ATTRIBUTE_LIST), nil, "LabeledVPNIPAddrPrefix has no label")
+	}
 	if bits-8*l.Labels.Len() < 0 {
 		return NewMessageError(uint8(BGP_ERROR_UPDATE_MESSAGE_ERROR), uint8(BGP_ERROR_SUB_MALFORMED_ATTRIBUTE_LIST), nil, "LabeledVPNIPAddrPrefix declared length too short for label stack")
 	}
@@ -2087,6 +2092,11 @@ func (l *LabeledIPAddrPrefix) decodeFromBytes(data []byte, addrlen int, options 
 		return err
 	}
 
+	if len(l.Labels.Labels) == 0 {
+		// RFC 8277: the NLRI always carries at least one label; a value without
+		// one could be stored but never re-advertised (it does not serialise).
+		return NewMessageError(BGP_ERROR_UPDATE_MESSAGE_ERROR, BGP_ERROR_SUB_MALFORMED_ATTRIBUTE_LIST, nil, "LabeledIPAddrPrefix has no label")
+	}
 	if bits-8*l.Labels.Len() < 0 {
 		return NewMessageError(BGP_ERROR_UPDATE_MESSAGE_ERROR, BGP_ERROR_SUB_MALFORMED_ATTRIBUTE_LIST, nil, "LabeledIPAddrPrefix declared length too short for label stack")
 	}
